@@ -507,6 +507,138 @@ func (e *env) live(rng *rand.Rand, tr []string, pi, pt time.Duration, periods in
 	e.res.Case(fmt.Sprint("live", tr, pi, pt), true)
 }
 
+// The same situation built step by step with a protocol-level client, so that it does not depend on who wins a race
+// inside the Go client: polling handshake, one pending poll, websocket probe, the poll is flushed with a NOOP and no
+// further poll is made; the next PING is then parked in the polling queue; only now the UPGRADE packet is sent. The
+// parked PING has to come over the websocket; the peer answers it, so nothing may be closed.
+func (e *env) pingParkedRaw(pi, pt time.Duration) {
+	id := e.begin("live-ping-parked-at-upgrade-raw", "polling", "websocket", false, false, pi, pt, 0)
+	var mu sync.Mutex
+	sClose := ""
+	var ssock eio.ServerSocket
+	scfg := eio.ServerConfig{PingInterval: pi, PingTimeout: pt, UpgradeTimeout: 10 * time.Second,
+		WebSocketAcceptOptions: &websocket.AcceptOptions{CompressionMode: websocket.CompressionDisabled}}
+	srv := eio.NewServer(func(ss eio.ServerSocket) *eio.Callbacks {
+		mu.Lock()
+		ssock = ss
+		mu.Unlock()
+		return &eio.Callbacks{OnClose: func(r eio.Reason, err error) { mu.Lock(); sClose = string(r); mu.Unlock() }}
+	}, &scfg)
+	if err := srv.Run(); err != nil {
+		e.res.Inconclusive("rig", err.Error(), id)
+		e.end()
+		return
+	}
+	ts := httptest.NewServer(srv)
+	defer func() { srv.Close(); ts.CloseClientConnections(); ts.Close() }()
+	fail := func(why string) {
+		e.res.Inconclusive("c14", "raw upgrade: "+why, id)
+		vtrace.Take()
+	}
+	get := func(q string) (string, error) {
+		resp, err := http.Get(ts.URL + "/?EIO=4&transport=polling" + q)
+		if err != nil {
+			return "", err
+		}
+		defer resp.Body.Close()
+		b := make([]byte, 4096)
+		n, _ := resp.Body.Read(b)
+		return string(b[:n]), nil
+	}
+	open, err := get("")
+	i := strings.Index(open, `"sid":"`)
+	if err != nil || i < 0 {
+		fail("no handshake")
+		return
+	}
+	sid := open[i+7:]
+	sid = sid[:strings.IndexByte(sid, '"')]
+	polled := make(chan string, 1)
+	go func() { b, _ := get("&sid=" + sid); polled <- b }()
+	time.Sleep(30 * time.Millisecond) // the poll is pending
+	ctx, cancel := context.WithTimeout(context.Background(), pi+pt+8*time.Second)
+	defer cancel()
+	conn, _, err := websocket.Dial(ctx, "ws"+strings.TrimPrefix(ts.URL, "http")+"/?EIO=4&transport=websocket&sid="+sid,
+		&websocket.DialOptions{CompressionMode: websocket.CompressionDisabled})
+	if err != nil {
+		fail("websocket dial: " + err.Error())
+		return
+	}
+	defer conn.Close(websocket.StatusNormalClosure, "")
+	conn.Write(ctx, websocket.MessageText, []byte("2probe"))
+	if _, b, err := conn.Read(ctx); err != nil || string(b) != "3probe" {
+		fail("no probe answer")
+		return
+	}
+	select {
+	case <-polled: // flushed (NOOP); no further poll from here on
+	case <-time.After(3 * time.Second):
+		fail("the pending poll was not flushed")
+		return
+	}
+	// the next PING goes to the polling transport, where nobody asks for it
+	parked := rig.WaitUntil(pi+2*time.Second, func() bool {
+		for _, r := range vtrace.Snapshot() {
+			if r["ev"] == "eio.s.send" && fmt.Sprint(r["tr"]) == "polling" && strings.Contains(fmt.Sprint(r["pk"]), "ctl:2") {
+				return true
+			}
+		}
+		return false
+	})
+	if !parked {
+		fail("no PING was sent while the upgrade was pending")
+		return
+	}
+	time.Sleep(20 * time.Millisecond)
+	vtrace.Emit("eio.c.swap", "o", 0, "to", "websocket")
+	conn.Write(ctx, websocket.MessageText, []byte("5"))
+	// answer every PING that comes over the websocket until well past the ping time-out (the reads run under the
+	// long context: this websocket library closes a connection whose read context expires)
+	frames := make(chan string, 16)
+	go func() {
+		for {
+			_, b, err := conn.Read(ctx)
+			if err != nil {
+				close(frames)
+				return
+			}
+			frames <- string(b)
+		}
+	}()
+	deadline := time.After(pt + 700*time.Millisecond)
+	gotPing := false
+loop:
+	for {
+		select {
+		case f, ok := <-frames:
+			if !ok {
+				break loop
+			}
+			if f == "2" {
+				gotPing = true
+				vtrace.Emit("eio.c.ping", "o", 0, "t", vtrace.NowUS())
+				conn.Write(ctx, websocket.MessageText, []byte("3"))
+			}
+		case <-deadline:
+			break loop
+		}
+	}
+	time.Sleep(30 * time.Millisecond)
+	mu.Lock()
+	sc, ss := sClose, ssock
+	mu.Unlock()
+	st := ""
+	if ss != nil {
+		st = ss.TransportName()
+	}
+	vtrace.Emit("quiesce", "serverTransport", st, "clientTransport", "websocket", "up", 0, "down", 0, "bothWays", false)
+	if sc != "" || !gotPing {
+		e.res.Violation("c14-parked-ping-lost", fmt.Sprintf("a PING parked on long-polling when the UPGRADE packet arrived: received over the websocket: %v; the server closed the live peer with %q", gotPing, sc), id, nil)
+	}
+	e.end()
+	e.res.Case("ping-parked-raw", true)
+}
+
 // a heartbeat that falls into the upgrade window (queued on polling after the client already left it)
 // must reach the client over the new transport: a live peer is not killed by upgrading
 func (e *env) pingInUpgradeWindow(pi, pt time.Duration) {
@@ -584,6 +716,7 @@ func TestC14(t *testing.T) {
 		e.dead([]string{"polling"}, 1, "after-ping", sec, 3*sec)
 	}
 	e.pingInUpgradeWindow(sec, sec)
+	e.pingParkedRaw(sec, sec)
 	e.live(rng, []string{"websocket"}, sec, sec, vres.Pick(5, 10))
 	e.live(rng, []string{"polling"}, sec, sec, vres.Pick(5, 10))
 	if vres.Tier() == "thorough" {
